@@ -101,7 +101,9 @@ func RunSlowPunch(prop string, seed uint64, worker, cases int, scratch, out stri
 				res.Inconclusive = append(res.Inconclusive, "read: "+err.Error())
 				return
 			}
-			reopen := r.Bool()
+			// (Server.Reload empties the queue itself after its preload, since the repair of F20: the reload variant is
+			// the one in which the deletion begins with nothing queued)
+			reopen := c%3 != 2
 			gap := []time.Duration{0, 1200 * time.Millisecond, 2500 * time.Millisecond}[(c+worker)%3]
 			cfg["blocks_in_P"], cfg["blocks_S_overrides"], cfg["reopen_instead_of_reload"], cfg["gap_between_fold_and_remove_ms"] = n, over, reopen, gap.Milliseconds()
 			// reclamation comes on: the process restarts and is told to start, or a rebuild ends with a reload
